@@ -187,7 +187,8 @@ def prune_unviable_and_unnecessary_nodes(graph: AttackGraph) -> None:
     graph       - the attack graph for which we wish to remove the
                   the nodes which are not viable or necessary.
     """
-    for node in graph.nodes:
+    # Note: remove_node alters graph.nodes, so iterate over a copy of the list
+    for node in list(graph.nodes):
         if (node.type == 'or' or node.type == 'and') and \
             (not node.is_viable or not node.is_necessary):
             graph.remove_node(node)
